@@ -53,13 +53,16 @@ theorem pendClosed_eq_one {code : List Instr} (h : pendClosed code = 1) :
   · exact ⟨_, _, _, rfl⟩
   · omega
 
-theorem stackOp_eq_close {c : Cfg} (h : c.stackOp = some .close) : ∃ frm rest, c.code = .closeScreen frm :: rest := by
+theorem stackOp_eq_close {c : Cfg} {frm : Option Src} (h : c.stackOp = some (.close frm)) :
+    ∃ rest, c.code = .closeScreen frm :: rest := by
   unfold Cfg.stackOp at h
   split at h
   all_goals try (simp at h; done)
-  · exact ⟨_, _, ‹_›⟩
+  · simp only [Option.some.injEq, Spec.Op.close.injEq] at h
+    subst h
+    exact ⟨_, ‹_›⟩
 
-theorem closeOps_schedEvs_pos {c : Cfg} (h : closeOps c.schedEvs ≠ 0) : c.stackOp = some .close := by
+theorem closeOps_schedEvs_pos {c : Cfg} (h : closeOps c.schedEvs ≠ 0) : ∃ frm, c.stackOp = some (.close frm) := by
   unfold Cfg.schedEvs at h
   split at h
   · simp [closeOps, Tr.isOp] at h
@@ -81,14 +84,15 @@ theorem ClosedInv_step {P : Prog} {c : Cfg} (hi : Imm c) (h : ClosedInv c) : Clo
     simpa [Cfg.cbEvs, Cfg.schedEvs, Cfg.stackOp, hc, closedCbs, closeOps] using h
   · rw [hc] at h
     -- the pending callback after the step was pushed by a `closeScreen`
-    have hpend : pendClosed (sOutCfg (step P c)).code = 1 → ∃ frm e, ins = .closeScreen frm ∧ c.A.stack.getLast? = some e := by
+    have hpend : pendClosed (sOutCfg (step P c)).code = 1 → ∃ frm e, ins = .closeScreen frm ∧ c.A.stack.getLast? = some e ∧
+        (frm = none ∨ frm = some (.scr e.screen)) := by
       intro hp
       obtain ⟨s, a, k, hh⟩ := pendClosed_eq_one hp
       have := head_imm_after hi hc hh rfl
       simp only [ImmPushedBy, reduceCtorEq, and_false, exists_false, false_or, or_false, exists_const,
         Instr.callScr.injEq, false_and] at this
-      obtain ⟨frm, e, rfl, he, _⟩ := this
-      exact ⟨frm, e, rfl, he⟩
+      obtain ⟨frm, e, rfl, he, hacc, _⟩ := this
+      exact ⟨frm, e, rfl, he, hacc⟩
     have hle := pendClosed_le (sOutCfg (step P c)).code
     by_cases h1 : ∃ s a k, ins = .callScr s .closed a k
     · obtain ⟨s, a, k, rfl⟩ := h1
@@ -109,24 +113,40 @@ theorem ClosedInv_step {P : Prog} {c : Cfg} (hi : Imm c) (h : ClosedInv c) : Clo
           have : pendClosed (sOutCfg (step P c)).code = 0 := by
             rcases Nat.lt_or_ge (pendClosed (sOutCfg (step P c)).code) 1 with h' | h'
             · omega
-            · obtain ⟨_, _, _, hx⟩ := hpend (by omega)
+            · obtain ⟨_, _, _, hx, _⟩ := hpend (by omega)
               simp [hl] at hx
           rw [this]
           have h1 : closedCbs c.cbEvs = 0 := by simp [Cfg.cbEvs, hc, closedCbs]
           have h2 : closeOps c.schedEvs = 0 := by
-            simp [Cfg.schedEvs, Cfg.stackOp, hc, closeOps, Spec.Op.apply, Spec.Stack.pop, Spec.Stack.top, hl]
+            simp [Cfg.schedEvs, Cfg.stackOp, hc, closeOps, Spec.Op.apply, Spec.Stack.close, Spec.Stack.top, hl]
           have h3 : pendClosed (Instr.closeScreen frm :: rest) = 0 := rfl
           omega
         | some e =>
-          have : pendClosed (sOutCfg (step P c)).code = 1 := by
-            simp [step, hc, hl, pendClosed]
-          rw [this]
           have h1 : closedCbs c.cbEvs = 0 := by simp [Cfg.cbEvs, hc, closedCbs]
-          have h2 : closeOps c.schedEvs = 1 := by
-            simp [Cfg.schedEvs, Cfg.stackOp, hc, closeOps, Spec.Op.apply, Spec.Stack.pop, Spec.Stack.top, hl,
-              Spec.Op.name, Tr.isOp]
           have h3 : pendClosed (Instr.closeScreen frm :: rest) = 0 := rfl
-          omega
+          by_cases hrf : frm ≠ none ∧ frm ≠ some (.scr e.screen)
+          · -- the request is refused: nothing popped, no callback pending
+            have : pendClosed (sOutCfg (step P c)).code = 0 := by
+              rcases Nat.lt_or_ge (pendClosed (sOutCfg (step P c)).code) 1 with h' | h'
+              · omega
+              · obtain ⟨frm', e', hx, he', hacc⟩ := hpend (by omega)
+                cases hx
+                rw [hl] at he'
+                cases he'
+                rcases hacc with h | h
+                · exact absurd h hrf.1
+                · exact absurd h hrf.2
+            rw [this]
+            have h2 : closeOps c.schedEvs = 0 := by
+              simp [Cfg.schedEvs, Cfg.stackOp, hc, closeOps, Spec.Op.apply, Spec.Stack.close, Spec.Stack.top, hl, hrf]
+            omega
+          · have : pendClosed (sOutCfg (step P c)).code = 1 := by
+              simp [step, hc, hl, hrf, pendClosed]
+            rw [this]
+            have h2 : closeOps c.schedEvs = 1 := by
+              simp [Cfg.schedEvs, Cfg.stackOp, hc, closeOps, Spec.Op.apply, Spec.Stack.close, Spec.Stack.top, hl,
+                Spec.Op.name, Tr.isOp, hrf]
+            omega
       · have : pendClosed (sOutCfg (step P c)).code = 0 := by
           rcases Nat.lt_or_ge (pendClosed (sOutCfg (step P c)).code) 1 with h' | h'
           · omega
@@ -153,7 +173,8 @@ theorem ClosedInv_step {P : Prog} {c : Cfg} (hi : Imm c) (h : ClosedInv c) : Clo
         have hop : closeOps c.schedEvs = 0 := by
           rcases Nat.eq_zero_or_pos (closeOps c.schedEvs) with h' | h'
           · exact h'
-          · obtain ⟨frm, rest', hx⟩ := stackOp_eq_close (closeOps_schedEvs_pos (Nat.pos_iff_ne_zero.1 h'))
+          · obtain ⟨frm, hop⟩ := closeOps_schedEvs_pos (Nat.pos_iff_ne_zero.1 h')
+            obtain ⟨rest', hx⟩ := stackOp_eq_close hop
             rw [hc] at hx
             cases hx
             exact absurd ⟨_, rfl⟩ h2
